@@ -166,7 +166,7 @@ REGISTRY = {
     "C04": {"flavours": Q3, "suites": [], "step_suites": [("kill", step_c04)],
             "rule": "strace kill sweep over keyed writes, overwrites (multi-byte UTF-8 metadata; after a long history: bucket > 64 KiB), rejected commits and tombstone removals: SIGKILL on entry to every mutating system call, the index append torn at EVERY byte length; on each surviving directory a fresh process looks the key up (previous or new entry, never a mixture; new entry => its data reads back), every other key unchanged, then writes the key again and reads it back; the tree is one of the model's crash states."},
     "C13": {"flavours": Q3, "suites": [], "step_suites": [("fault", steps.suite_fault), ("retry", steps.suite_fault_retry), ("fsize", steps.suite_fsize)],
-            "rule": "strace fault sweep: every system call (open/read/write/mkdir/rename/unlink/link/stat/getdents/...) that names a path inside the cache during write, write_hash, streamed open/chunk/commit, read, read_hash, metadata, copy, remove, remove_hash, list is made to fail once with EIO / ENOSPC (thorough: + EACCES, EMFILE); the call must answer an error or a truthful success (written data reads back, reads return the stored bytes, metadata/list do not silently lose entries), never panic/hang/die; afterwards content files hash to their paths, unnamed entries are unchanged (a temp file left by a failed call is counted, not alarmed on: the property names the content and index areas only); and the same call issued again without the fault succeeds; plus genuine short writes: the process's file-size limit is lowered during a streamed write (one write(2) short, the next EFBIG), the failed write() call is retried after the limit is lifted, and a commit that reports success must read back exactly the acknowledged bytes."},
+            "rule": "strace fault sweep: every system call (open/read/write/mkdir/rename/unlink/link/stat/getdents/...) that names a path inside the cache during write, write_hash, streamed open/chunk/commit, read, read_hash, metadata, copy, remove, remove_hash, list is made to fail once with EIO / ENOSPC / EACCES (thorough: + EMFILE); the call must answer an error or a truthful success (written data reads back, reads return the stored bytes, metadata/list do not silently lose entries), never panic/hang/die; afterwards content files hash to their paths, unnamed entries are unchanged (a temp file left by a failed call is counted, not alarmed on: the property names the content and index areas only); and the same call issued again without the fault succeeds; plus genuine short writes: the process's file-size limit is lowered during a streamed write (one write(2) short, the next EFBIG), the failed write() call is retried after the limit is lifted, and a commit that reports success must read back exactly the acknowledged bytes."},
     "C15": {"flavours": Q3, "suites": [("layouts", suite_layouts), ("damage_content", suite_damage_content)], "step_suites": [("confine", steps.suite_confine)],
             "rule": "strace path audit: for hostile / confusable / random Unicode keys a 25-call program covering every kind of operation is traced; every mutating system call must name paths inside the cache root (extractions: or their destination), read-only calls must issue no mutating system call, path components under the cache are never empty, '.', '..' or contain NUL, components under index-v5 are hex, content files are never opened for writing in place, the working directory is untouched; plus differential programs on damaged content (every read-only entry point on entries whose content was flipped / truncated / replaced / removed: the tree afterwards is the model's, i.e. unchanged) and two cache-path layouts."},
     "C11": {"flavours": Q3, "suites": [("meta", suite_meta), ("commit", suite_commit)],
